@@ -6,6 +6,7 @@ import NibabelModel.Lemmas.C06_GenFuncs
 import NibabelModel.Lemmas.C06_GenSegs
 import NibabelModel.Lemmas.C06_GenCanon
 import NibabelModel.Lemmas.C06_GenPlan
+import NibabelModel.Lemmas.C06_Hist
 /-! Props/C06 — property theorems for C06 (reading a slice from file bytes equals NumPy indexing).
     Stage A (per axis), stage B (segments), stage C (whole) — see DESIGN.md §5 C06.
 
@@ -553,5 +554,123 @@ example : Gen.C06F.calc_slicedefs (V.ofList [.slice .none .none (.int (-2)), .no
       (.int 2) (.int 10) (.str "C") (liftH (fun _ _ _ => .skip))
     = .ok (.tup3 (ofSegs [⟨14, 2⟩, ⟨26, 2⟩, ⟨38, 2⟩]) (ofShape [3, 1])
         (V.ofList [.slice .none .none (.int (-1)), .slice .none .none .none])) := by decide
+
+/-! ## Stage H — the byte level (`read_segments`, the final `ndarray(...)[post]`) and HISTORIES of reads
+
+    `Model/C06_IO.lean` models what the earlier stages left out: the file object with its contents and CURRENT
+    POSITION, `read_segments` (seek / read loop, the three length checks, the `mmap` the segments are joined
+    in), the item view `np.ndarray(sliced_shape, dtype, buffer=arr_data, order=order)` and the post-slicing, on
+    BYTES; and `runHistory`: any number of reads, one after another, on any number of file objects, each read
+    finding its file object where the previous read of that file left it.  In the model a result is a VALUE
+    (shape + the bytes of every element): that a result of the real code does not change after the read that
+    produced it is what the `hist` stream checks on the implementation (all results retained, compared with
+    NumPy at the end of the history, after further reads and after the files are closed). -/
+
+/-- **H1** `read_segments` on segments that lie inside the file (positive lengths, `n_bytes` = their total
+    length — what `calc_slicedefs` plans, see `reads_within_extent`) returns exactly the bytes of the segments,
+    in order, from ANY starting position of the file object, and leaves the contents alone. -/
+theorem readSegments_reads_segments (data : List Nat) (pos : Nat) (segs : List Segment)
+    (hin : ∀ s ∈ segs, s.InFile data.length) (hpos : ∀ s ∈ segs, 0 < s.length) :
+    ∃ pos', readSegments ⟨data, pos⟩ segs (segs.map (·.length)).sum
+      = (.ok (segs.flatMap (fun s => (data.drop s.offset.toNat).take s.length)), ⟨data, pos'⟩) :=
+  readSegments_ok data pos segs hin hpos
+
+example : (∀ s ∈ [(⟨3, 2⟩ : Segment), ⟨0, 1⟩], s.InFile [10, 11, 12, 13, 14].length) ∧
+    (∀ s ∈ [(⟨3, 2⟩ : Segment), ⟨0, 1⟩], 0 < s.length) ∧
+    readSegments ⟨[10, 11, 12, 13, 14], 4⟩ [⟨3, 2⟩, ⟨0, 1⟩] 3 = (.ok [13, 14, 10], ⟨[10, 11, 12, 13, 14], 1⟩) := by
+  refine ⟨?_, ?_, by decide⟩ <;> intro s hs <;>
+    simp only [List.mem_cons, List.not_mem_nil, or_false] at hs <;>
+    rcases hs with rfl | rfl <;> simp [Segment.InFile]
+
+/-- **H1 (position, contents)** for ALL segment lists, byte counts and files — error cases included — the
+    outcome of `read_segments` does not depend on the position of the file object before the call (every read
+    is preceded by its own seek), and the call does not change the contents. -/
+theorem readSegments_state (data : List Nat) (p p' : Nat) (segs : List Segment) (n : Nat) :
+    (readSegments ⟨data, p⟩ segs n).1 = (readSegments ⟨data, p'⟩ segs n).1 ∧
+    (readSegments ⟨data, p⟩ segs n).2.data = data :=
+  ⟨readSegments_pos_irrelevant data p p' segs n, readSegments_data ⟨data, p⟩ segs n⟩
+
+/-- a short file: the second segment ends behind the end of the file, the reader refuses -/
+example : readSegments ⟨[10, 11, 12, 13, 14], 0⟩ [⟨3, 2⟩, ⟨4, 2⟩] 4 = (.error .short, ⟨[10, 11, 12, 13, 14], 5⟩) := by
+  decide
+
+/-- **H2 (byte level)** the whole `fileslice` on a file object: plan, `read_segments`, item view, post-slice,
+    C/F re-ordering.  For every heuristic that never answers `contiguous` for an int, every shape, index tuple
+    with non-zero steps, memory order, item size ≥ 1, offset, file contents long enough to hold the array and
+    EVERY position of the file object: the result has NumPy's shape and its k-th element consists of the `isz`
+    bytes stored for the element NumPy indexing selects (`elemBytes data off isz q` = bytes
+    `off + isz·q … off + isz·q + isz − 1` of the file); errors agree with NumPy's. -/
+theorem filesliceIO_eq_numpy (h : Heuristic) (hh : ∀ i n st, h (.int i) n st ≠ .contiguous)
+    (idx : List IdxItem) (shape : List Nat) (hv : ∀ s, IdxItem.slice s ∈ idx → s.Valid)
+    (o : Order) (isz off : Nat) (data : List Nat) (pos : Nat) (hisz : 0 < isz)
+    (hlen : off + isz * shape.prod ≤ data.length) :
+    (filesliceIO h idx shape isz off o ⟨data, pos⟩).1
+      = (npIndex idx shape o).map (fun (sh, l) => (sh, l.map (elemBytes data off isz))) :=
+  filesliceIO_eq_numpy' h hh idx shape hv o isz off data pos hisz hlen
+
+example : (0 < 2 ∧ 1 + 2 * [2, 3].prod ≤ [99, 0, 0, 1, 0, 2, 0, 3, 0, 4, 0, 5, 0, 77].length) ∧
+    (filesliceIO (thresholdHeuristic 0) [.int 1, .slice ⟨none, none, some (-1)⟩] [2, 3] 2 1 .F
+        ⟨[99, 0, 0, 1, 0, 2, 0, 3, 0, 4, 0, 5, 0, 77], 9⟩).1 = .ok ([3], [[5, 0], [3, 0], [1, 0]]) ∧
+    npIndex [.int 1, .slice ⟨none, none, some (-1)⟩] [2, 3] .F = .ok ([3], [5, 3, 1]) := by decide
+
+/-- **H3** for ALL arguments (error cases included): the outcome of a read does not depend on the position the
+    file object is at, and a read does not change the contents of the file object. -/
+theorem filesliceIO_state (h : Heuristic) (idx : List IdxItem) (shape : List Nat) (isz off : Nat)
+    (o : Order) (data : List Nat) (p p' : Nat) :
+    (filesliceIO h idx shape isz off o ⟨data, p⟩).1 = (filesliceIO h idx shape isz off o ⟨data, p'⟩).1 ∧
+    (filesliceIO h idx shape isz off o ⟨data, p⟩).2.data = data :=
+  ⟨filesliceIO_pos_irrelevant' h idx shape isz off o data p p', filesliceIO_data' h idx shape isz off o ⟨data, p⟩⟩
+
+/-- **H4 (histories)** the i-th result of ANY history of reads — any number of reads on any number of file
+    objects, any heuristics, any arguments, failing reads included — is the result of the i-th request alone
+    on the original contents of its file: it depends neither on the reads before it (nor on the positions they
+    left the file objects at) nor on the reads after it. -/
+theorem read_history_independent (files : List FileObj) (reqs : List Req) (i : Nat) (hi : i < reqs.length) :
+    (runHistory files reqs)[i]? = some (readAlone files reqs[i]) :=
+  read_history_independent' reqs files i hi
+
+/-- **H4 (NumPy)** hence every read of a history whose own arguments are sound (heuristic never `contiguous`
+    for an int, non-zero slice steps, item size ≥ 1, its file long enough) returns what NumPy indexing of the
+    array stored in its file returns — whatever else happens in the history. -/
+theorem read_history_eq_numpy (files : List FileObj) (reqs : List Req) (i : Nat) (hi : i < reqs.length)
+    (hh : ∀ j n st, reqs[i].h (.int j) n st ≠ .contiguous)
+    (hv : ∀ s, IdxItem.slice s ∈ reqs[i].idx → s.Valid) (hisz : 0 < reqs[i].isz)
+    (hlen : reqs[i].off + reqs[i].isz * reqs[i].shape.prod ≤ (files.getD reqs[i].file default).data.length) :
+    (runHistory files reqs)[i]? = some ((npIndex reqs[i].idx reqs[i].shape reqs[i].o).map
+      (fun (sh, l) => (sh, l.map (elemBytes (files.getD reqs[i].file default).data reqs[i].off reqs[i].isz)))) := by
+  rw [read_history_independent files reqs i hi, readAlone,
+    filesliceIO_eq_numpy' _ hh _ _ hv _ _ _ _ 0 hisz hlen]
+
+/-- two files, three reads (the second one fails: index out of range), positions left anywhere -/
+example : runHistory [⟨[7, 10, 11, 12, 13, 14, 15], 6⟩, ⟨[20, 21, 22, 23], 1⟩]
+      [⟨0, fun _ _ _ => .skip, [.int 1], [2, 3], 1, 1, .F⟩,
+       ⟨1, thresholdHeuristic 256, [.int 4], [4], 1, 0, .C⟩,
+       ⟨0, fun _ _ _ => .skip, [.slice ⟨none, none, some 2⟩], [2, 3], 1, 1, .C⟩]
+    = [.ok ([3], [[11], [13], [15]]), .error .index, .ok ([1, 3], [[10], [11], [12]])] := by decide
+
+/-- **H5 (short file, `read_segments`)** if one of the segments reaches beyond the end of the file,
+    `read_segments` asked for the planned total raises — from any position, with one or many segments: it
+    never pads and never hands back fewer bytes silently. -/
+theorem readSegments_short (data : List Nat) (pos : Nat) (segs : List Segment)
+    (hout : ∃ s ∈ segs, 0 < s.length ∧ data.length < s.offset.toNat + s.length) :
+    ∃ e, (readSegments ⟨data, pos⟩ segs (segs.map (·.length)).sum).1 = .error e :=
+  readSegments_short' data pos segs hout
+
+example : ∃ s ∈ [(⟨3, 2⟩ : Segment), ⟨4, 2⟩], 0 < s.length ∧ [10, 11, 12, 13, 14].length < s.offset.toNat + s.length :=
+  ⟨⟨4, 2⟩, by simp, by decide, by decide⟩
+
+/-- **H5 (short file, `fileslice`)** for every heuristic and every index with non-zero steps: when the file
+    is too short for one of the reads `calc_slicedefs` plans, `fileslice` raises — it never fabricates data. -/
+theorem filesliceIO_short (h : Heuristic) (idx : List IdxItem) (shape : List Nat)
+    (hv : ∀ s, IdxItem.slice s ∈ idx → s.Valid) (o : Order) (isz off : Nat) (data : List Nat) (pos : Nat)
+    (d : SliceDefs) (hok : calcSlicedefs h idx shape isz off o = .ok d)
+    (hout : ∃ s ∈ d.segments, 0 < s.length ∧ data.length < s.offset.toNat + s.length) :
+    ∃ e, (filesliceIO h idx shape isz off o ⟨data, pos⟩).1 = .error e :=
+  filesliceIO_short' h idx shape hv o isz off data pos d hok hout
+
+example : (∃ d, calcSlicedefs (fun _ _ _ => .skip) [.int 1] [2, 3] 1 1 .F = .ok d ∧
+      d.segments = [⟨2, 1⟩, ⟨4, 1⟩, ⟨6, 1⟩]) ∧
+    (filesliceIO (fun _ _ _ => .skip) [.int 1] [2, 3] 1 1 .F ⟨[7, 10, 11, 12, 13, 14], 0⟩).1 = .error .short :=
+  ⟨⟨_, rfl, by decide⟩, by decide⟩
 
 end Nb.C06
